@@ -416,3 +416,47 @@ def lift_termloop(beh, idx):
     ops += [{"op": "observe", "seg": h, "level": "full"} for h in (10, 11, 12)]
     return {"name": "E2-termloop-%d" % idx, "norm": "code", "universe": ["_id", "f"], "batches": batches, "ops": ops,
             "tags": ["e2termloop"] + (["termloop_onehit"] if any(w["onehit"] for w in beh["written"]) else [])}
+
+
+def lift_dvmerge(beh, idx):
+    """DvMerge configuration -> input segments with the modelled field lists (field ids = list positions: a field
+    instance without terms in document 0 pins the id of a field whose first term comes later or never), terms and
+    doc-value flags; merged with the modelled deletions, the result observed in full (postings, doc values of every
+    document through readers over both field orders), then merged once more with the first input."""
+    batches, dropl = [], []
+    for s, c in enumerate(beh["segs"]):
+        batch = []
+        for d in range(c["ndocs"]):
+            doc = [id_inst(100 * s + d)]
+            for F in c["fields"]:
+                dv = bool(c["dv"][F])
+                if d in c["tdocs"][F]:
+                    terms = [{"term": B("%s%d" % (F, d % 2)), "freq": 1, "locs": []}]
+                    if (s + d) % 3 == 0:
+                        terms.append({"term": B("z%d" % s), "freq": 2, "locs": []})
+                    doc.append({"name": F, "len": sum(t["freq"] for t in terms), "stored": False, "value": [], "dv": dv, "terms": terms})
+                elif d == 0:
+                    doc.append({"name": F, "len": 0, "stored": False, "value": [], "dv": dv, "terms": []})
+            batch.append(doc)
+        batches.append(batch)
+        dropl.append({"kind": "set", "docs": c["drops"]} if c["drops"] else {"kind": "nil"})
+    k = len(batches)
+    ops = [{"op": "build", "seg": s + 1, "batch": s, "mode": 0} for s in range(k)]
+    ins = list(range(1, k + 1))
+    if idx % 2:
+        # file-backed copies as inputs
+        for s in range(k):
+            ops += [{"op": "persist", "seg": s + 1, "file": 20 + s}, {"op": "load", "file": 20 + s, "seg": 21 + s, "backing": "file" if s % 2 else "mem"}]
+        ins = [21 + s for s in range(k)]
+    ops += [{"op": "merge", "file": 10, "in": ins, "drops": dropl, "mode": 0, "buf": 64},
+            {"op": "load", "file": 10, "seg": 10, "backing": "mem"},
+            {"op": "observe", "seg": 10, "level": "full"}]
+    total = sum(c["ndocs"] - len(c["drops"]) for c in beh["segs"])
+    for r, fl in ((1, ["f", "g"]), (2, ["g", "f"]), (3, ["g"])):
+        ops.append({"op": "dv_open", "seg": 10, "r": r, "fields": fl})
+        order = list(range(total)) if r != 2 else list(reversed(range(total)))
+        ops += [{"op": "dv_visit", "r": r, "n": n} for n in order]
+    ops += [{"op": "merge", "file": 11, "in": [10, ins[0]], "drops": [{"kind": "nil"}, {"kind": "nil"}], "mode": 0, "buf": 64},
+            {"op": "load", "file": 11, "seg": 11, "backing": "mem"}, {"op": "observe", "seg": 11, "level": "full"}]
+    return {"name": "E2-dvmerge-%d" % idx, "norm": "code", "universe": ["_id", "f", "g"], "batches": batches, "ops": ops,
+            "tags": ["e2dvmerge"]}
